@@ -6,7 +6,8 @@
    independent of the encoder model (Codec/Encode.v), which mirrors the generated Go code. *)
 From Coq Require Import NArith List Arith.
 From LLRP Require Import Base.Bits Codec.Schema Codec.Encode Codec.Decode Codec.Wf Codec.SchemaTable
-     Codec.FieldsProofs Codec.RoundTrip Codec.BitSpec Codec.BitSpecProofs Codec.WfBool.
+     Codec.FieldsProofs Codec.RoundTrip Codec.BitSpec Codec.BitSpecProofs Codec.WfBool
+     EncIR.IR EncIR.Sem EncIR.Compile EncIR.CompileCorrect.
 Import ListNotations.
 Open Scope N_scope.
 
@@ -76,3 +77,51 @@ Example C02_example_layout :
   /\ encode llrp_table example_trd =
      Some [0; 240; 0; 23;  141; 1;2;3;4;5;6;7;8;9;10;11;255;  129; 2; 1;  140; 173; 170].
 Proof. split; vm_compute; reflexivity. Qed.
+
+(* ---------- Way 1: the Go encoder SOURCE, translated on every run, is the model above ----------
+   tools/go-enc-ir translates EncodeFields / getHeader / MarshalBinary / encodeParams of the current tree into
+   the encoder IR (EncIR/IR.v); [progs_match t ps] is the decidable check that this IR is, container by
+   container, exactly what the schema compiles to (EncIR/Compile.v); it is discharged by vm_compute in the
+   per-run obligation build/gen/C02/Ob_encoder.v (`encoder_code_matches_schema`).  The theorem: for every
+   program set the check accepts and EVERY well-formed value, what the IR computes (EncIR/Sem.v: the bytes
+   encodeParams(getHeader()) / MarshalBinary leave in the buffer) is what Codec/Encode.v computes — the
+   definition all theorems above (and C01's) are about.  [enc_schema_ok] = wf_schema + the side conditions the
+   proof needed (alternatives of an exclusive group consecutive, their case conditions `!= nil`/`!= 0`,
+   TV type ids non-zero, no exclusive groups in messages); llrp_table satisfies it by computation. *)
+Theorem C02_encoder_code_refines_model : forall t ps,
+  enc_schema_ok t = true -> progs_match t ps = true ->
+  forall v fuel, wfv t v -> (depth v <= fuel)%nat -> run ps fuel v = of_opt (encode t v).
+Proof. exact progs_match_correct. Qed.
+Print Assumptions C02_encoder_code_refines_model.
+
+(* parameters: also the size getHeader declares (uint16 arithmetic) is the model's declared size *)
+Theorem C02_encoder_code_refines_model_sizes : forall t ps,
+  enc_schema_ok t = true -> progs_match t ps = true ->
+  forall tid fs ss fuel, wfv t (VStruct false tid fs ss) -> (depth (VStruct false tid fs ss) <= fuel)%nat ->
+  run_param ps fuel (VStruct false tid fs ss) = of_opt (enc t (VStruct false tid fs ss)).
+Proof. exact progs_match_correct_param. Qed.
+Print Assumptions C02_encoder_code_refines_model_sizes.
+
+(* at the pinned LLRP table (what the per-run obligation instantiates with this run's enc_all) *)
+Theorem C02_encoder_code_refines_model_llrp : forall ps,
+  progs_match llrp_table ps = true ->
+  forall v fuel, wfv llrp_table v -> (depth v <= fuel)%nat -> run ps fuel v = of_opt (encode llrp_table v).
+Proof. exact progs_match_correct_llrp. Qed.
+Print Assumptions C02_encoder_code_refines_model_llrp.
+
+(* non-vacuity: the hypotheses hold for the programs compiled from the table with a fitting struct declaration,
+   and on the example above the IR semantics yields the bytes of the model *)
+Example C02_encoder_ir_example :
+  enc_schema_ok llrp_table = true /\ progs_match llrp_table (canon_programs llrp_table) = true /\
+  run (canon_programs llrp_table) 2 example_trd = of_opt (encode llrp_table example_trd) /\
+  run (canon_programs llrp_table) 2 example_trd =
+    ROk [0; 240; 0; 23;  141; 1;2;3;4;5;6;7;8;9;10;11;255;  129; 2; 1;  140; 173; 170] /\
+  run (canon_programs llrp_table) 1 example_trd = RFuel.
+Proof. vm_compute. repeat split; reflexivity. Qed.
+
+(* a side condition is needed: with a TV type id 0 Go's IsTV (pt != 0 && pt <= 127) writes a TLV header *)
+Example C02_encoder_ir_tv_zero :
+  wf_schema tv0_table = true /\ progs_match tv0_table tv0_progs = true /\
+  run tv0_progs 1 (VStruct false 0 [VNum 7] []) = ROk [0; 0; 0; 2; 7] /\
+  encode tv0_table (VStruct false 0 [VNum 7] []) = Some [128; 7].
+Proof. exact tv_type_zero_refutes. Qed.
